@@ -5,6 +5,7 @@ import (
 	"encoding/hex"
 	"errors"
 	"fmt"
+	"io"
 	"math/rand"
 	"net"
 	"sort"
@@ -12,6 +13,7 @@ import (
 	"strings"
 	"sync"
 	"sync/atomic"
+	"syscall"
 	"time"
 
 	"go.dedis.ch/kyber/v3"
@@ -941,7 +943,20 @@ func (st *c03state) loopRouter() error {
 	return nil
 }
 
-func (st *c03state) loop(frames [][]byte, tail []byte, chunks []int, stall bool, post []int) string {
+// c03resetConn turns the peer's orderly close into a connection reset: a net.Error that is no
+// time-out.
+type c03resetConn struct{ net.Conn }
+
+func (c c03resetConn) Read(p []byte) (int, error) {
+	n, err := c.Conn.Read(p)
+	if err == io.EOF {
+		return n, &net.OpError{Op: "read", Net: "tcp", Err: syscall.ECONNRESET}
+	}
+	return n, err
+}
+
+func (st *c03state) loop(frames [][]byte, tail []byte, chunks []int, mode string, post []int) string {
+	stall, reset := mode == "stall", mode == "reset"
 	if err := st.loopRouter(); err != nil {
 		st.cs.Fail("harness", err.Error())
 		return "harness-error"
@@ -961,6 +976,13 @@ func (st *c03state) loop(frames [][]byte, tail []byte, chunks []int, stall bool,
 		old := network.VerifSetReadTimeout(250 * time.Millisecond)
 		defer network.VerifSetReadTimeout(old)
 	}
+	if reset {
+		// only the bytes of `chunks` are written; the close that follows reaches the receiver as a reset
+		for _, c := range chunks {
+			stallAt += c
+		}
+		recv = network.VerifNewTCPConn(c03resetConn{b}, fix.Suite)
+	}
 	rec := &c03rec{Conn: recv, log: st.log, closed: make(chan struct{}), limit: network.Size(st.max)}
 	network.MaxPacketSize = st.defMax
 	st.host.mu.Lock()
@@ -971,6 +993,18 @@ func (st *c03state) loop(frames [][]byte, tail []byte, chunks []int, stall bool,
 		// the identity exchange first, in one piece, not through the chunker
 		if _, err := network.VerifNewTCPConn(a, fix.Suite).Send(st.peer); err != nil {
 			a.Close()
+			return
+		}
+		if reset {
+			var stream []byte
+			for _, f := range frames {
+				stream = append(append(stream, c03be32(len(f))...), f...)
+			}
+			stream = append(stream, tail...)
+			if stallAt < len(stream) {
+				stream = stream[:stallAt]
+			}
+			c03feed(send, ck, a, nil, stream)
 			return
 		}
 		c03feed(send, ck, a, frames, tail)
@@ -1066,11 +1100,11 @@ func (st *c03state) loop(frames [][]byte, tail []byte, chunks []int, stall bool,
 			}
 		}
 	}
-	if !stall && k == len(frames) && len(tail) == 0 && strings.Join(nps, ",") != strings.Join(wantNp, ",") {
+	if !stall && !reset && k == len(frames) && len(tail) == 0 && strings.Join(nps, ",") != strings.Join(wantNp, ",") {
 		st.cs.Fail("delivery", fmt.Sprintf("frames of types without a processor: %v, reported as such: %v", wantNp, nps))
 	}
-	if stall {
-		// what went out before the stall is all the receiver may ever use
+	if stall || reset {
+		// what went out before the stall / the reset is all the receiver may ever use
 		var stream []byte
 		for _, f := range frames {
 			stream = append(append(stream, c03be32(len(f))...), f...)
@@ -1085,6 +1119,9 @@ func (st *c03state) loop(frames [][]byte, tail []byte, chunks []int, stall bool,
 			rest -= 4 + len(f)
 		}
 		wantEnd := "timeout"
+		if reset {
+			wantEnd = "neterr"
+		}
 		if rest >= 4 {
 			off := len(stream) - rest
 			if n := int(stream[off])<<24 | int(stream[off+1])<<16 | int(stream[off+2])<<8 | int(stream[off+3]); n > st.max {
@@ -1109,7 +1146,11 @@ func (st *c03state) loop(frames [][]byte, tail []byte, chunks []int, stall bool,
 			same = dels[i] == want[i] || want[i] == "noncanonical"
 		}
 		if !same || end != wantEnd {
-			st.cs.Fail("stall-not-closed", fmt.Sprintf("the sender stalled after %d bytes for longer than the read time-out: deliveries %v (complete decodable frames before the stall: %v), end %q (expected %q), events %s", stallAt, dels, want, end, wantEnd, strings.Join(ev, ",")))
+			sig, what := "stall-not-closed", "the sender stalled after %d bytes for longer than the read time-out"
+			if reset {
+				sig, what = "reset-not-closed", "the connection was reset after %d bytes"
+			}
+			st.cs.Fail(sig, fmt.Sprintf(what+": deliveries %v (complete decodable frames before it: %v), end %q (expected %q), events %s", stallAt, dels, want, end, wantEnd, strings.Join(ev, ",")))
 		}
 		k = len(frames)
 		tail = []byte{1}
@@ -1119,7 +1160,7 @@ func (st *c03state) loop(frames [][]byte, tail []byte, chunks []int, stall bool,
 		okPrefix = dels[i] == want[i] || want[i] == "noncanonical"
 	}
 	switch {
-	case stall:
+	case stall || reset:
 	case !okPrefix:
 		st.cs.Fail("delivery", fmt.Sprintf("decodable frames sent: %v, delivered: %v", want, dels))
 	case k < len(frames) && (len(dels) != len(want) || end != "toobig"):
@@ -1139,7 +1180,9 @@ func (st *c03state) loop(frames [][]byte, tail []byte, chunks []int, stall bool,
 			st.cs.Fail("oversize-not-closed", "the receive loop went on reading after a packet above the limit: "+strings.Join(ev, ","))
 		}
 	}
-	if stall {
+	if reset {
+		st.tag(fmt.Sprintf("loop-reset:%s:d%s:x%s", end, c03bucket(len(dels)), c03bucket(refused)))
+	} else if stall {
 		st.tag(fmt.Sprintf("loop-stall:%s:d%s:x%s", end, c03bucket(len(dels)), c03bucket(refused)))
 	} else {
 		st.tag(fmt.Sprintf("loop:%s:d%s:x%s:np%s", end, c03bucket(len(dels)), c03bucket(refused), c03bucket(len(nps))))
@@ -1323,19 +1366,26 @@ func c03exec(c *h.Ctx, cs *h.Case) {
 		case len(tk) == 5 && (tk[1] == "raw" || tk[1] == "loop"):
 			fr, ok1 := c03hexList(tk[2])
 			tl, ok2 := c03unhex(tk[3])
-			cp := strings.Split(tk[4], "~")
+			reset := tk[1] == "loop" && strings.HasSuffix(tk[4], "!")
+			cp := strings.Split(strings.TrimSuffix(tk[4], "!"), "~")
 			ch, ok3 := c03ints(cp[0])
 			var post []int
 			if len(cp) == 2 {
 				var ok4 bool
 				post, ok4 = c03ints(cp[1])
-				ok3 = ok3 && ok4 && tk[1] == "loop"
+				ok3 = ok3 && ok4 && tk[1] == "loop" && !reset
 			}
 			if ok1 && ok2 && ok3 && len(cp) <= 2 {
 				if tk[1] == "raw" {
 					obs = st.raw(fr, tl, ch)
 				} else {
-					obs = st.loop(fr, tl, ch, len(cp) == 2, post)
+					mode := ""
+					if len(cp) == 2 {
+						mode = "stall"
+					} else if reset {
+						mode = "reset"
+					}
+					obs = st.loop(fr, tl, ch, mode, post)
 				}
 			}
 		case len(tk) == 3 && tk[1] == "unm":
